@@ -1174,8 +1174,9 @@ func TestVerifC32Opcodes(t *testing.T) {
 				nfail, nok, ncases := 0, 0, 0
 				st := &c32Stats{}
 				var last c32Case
+				jobViol := 0
 				c32Cases(sp, r, nrand, func(cs c32Case) {
-					if c.Violations() > 20 {
+					if jobViol >= 3 || c.Violations() > 300 { // a few witnesses per (opcode, version) are enough
 						return
 					}
 					ci := ncases
@@ -1186,6 +1187,7 @@ func TestVerifC32Opcodes(t *testing.T) {
 						fk, msg = c32Run(c, st, sp, j.version, ospec.Opcode, cs)
 					})
 					if panicked {
+						jobViol++
 						return
 					}
 					if fk == "harness" {
@@ -1200,6 +1202,7 @@ func TestVerifC32Opcodes(t *testing.T) {
 						prog, _ := c32Program(j.version, ospec.Opcode, cs.args, cs.imm)
 						c.Violation(fk, map[string]any{"op": sp.name, "kinds": sp.args, "version": j.version, "case_index": ci,
 							"args": c32Vals(cs.args), "immediates": fmt.Sprint(cs.imm), "program_hex": hex.EncodeToString(prog), "message": msg})
+						jobViol++
 						return
 					}
 					if _, fail := sp.ref(cs.args, cs.imm); fail {
